@@ -13,6 +13,7 @@ import (
 	"fmt"
 	"math"
 	"math/bits"
+	"runtime/debug"
 	"sort"
 
 	"github.com/whatap/golib/util/hll"
@@ -107,12 +108,23 @@ func unpack(b []byte) (p int, regs []uint8, problem string) {
 		return p, nil, fmt.Sprintf("byte form has %d words, too few for %d registers", cnt, m)
 	}
 	regs = make([]uint8, m)
-	for i := 0; i < m; i++ {
-		w := binary.BigEndian.Uint32(b[8+4*(i/6):])
-		regs[i] = uint8(w >> (5 * uint(i%6)) & 31)
+	for i, off := 0, 8; i < m; off += 4 {
+		w := binary.BigEndian.Uint32(b[off:])
+		for j := 0; j < 6 && i < m; j, i = j+1, i+1 {
+			regs[i] = uint8(w & 31)
+			w >>= 5
+		}
 	}
 	return p, regs, ""
 }
+
+// negPow2[r] = 2^-r, exact.
+var negPow2 = func() (t [64]float64) {
+	for r := range t {
+		t[r] = math.Ldexp(1, -r)
+	}
+	return
+}()
 
 type estimate struct {
 	val    float64 // the algorithm's answer before rounding
@@ -140,7 +152,7 @@ func refEstimate(regs []uint8) estimate {
 	sum := 0.0
 	v := 0
 	for _, r := range regs {
-		sum += math.Ldexp(1, -int(r))
+		sum += negPow2[r&63]
 		if r == 0 {
 			v++
 		}
@@ -298,7 +310,9 @@ func newCounter(r *vlib.Rand, p int) *hll.HyperLogLog {
 // ---- the monitor ------------------------------------------------------------------------
 
 type W struct {
-	c *vlib.Ctx
+	c       *vlib.Ctx
+	scratch []byte
+	bufs    [4][]byte
 }
 
 // memo builds the (possibly large) description of a case once and hands out shallow copies,
@@ -374,29 +388,32 @@ func (w *W) checkCard(h *hll.HyperLogLog, regs []uint8, md *model, n int, hashed
 	}
 	got := h.Cardinality()
 	lnRatio, usable = w.judgeCard(got, regs, md, n, hashedSet, det)
-	after := append([]byte(nil), h.GetBytes()...)
+	w.scratch = append(w.scratch[:0], h.GetBytes()...) // copied: what was returned at this moment
+	after := w.scratch
 	if _, r2, problem := unpack(after); problem != "" || !bytes.Equal(r2, regs) {
 		d := det()
 		d["bytes_after"] = vlib.Hex(after)
 		w.c.Fail("Cardinality:changes-state", fmt.Sprintf("p=%d: the registers unpacked from GetBytes() right after Cardinality() differ from those right before it %s %v", md.p, problem, diffRegs(r2, regs)), d)
 		return lnRatio, usable
 	}
-	w.crossCheck(h, got, after, 1, det)
+	// the repeated questions on a part of the calls only (they cost as much as the call itself);
+	// which ones is a function of the case, so that a replay does the same
+	w.crossCheck(h, got, after, []int{1, 2, 0, 0}[got%4], det)
 	return lnRatio, usable
 }
 
 // crossCheck: b is the byte form of h taken next to the call that returned got. A counter
-// freshly rebuilt from b has the same estimate and the same bytes; rebuilding does not
-// disturb h; asking h again (after = 1: estimate then bytes, 2: bytes then estimate, 0: not
-// at all) gives the same answers.
+// freshly rebuilt from b has the same estimate. With after != 0 also: the rebuilt counter
+// has the same bytes, rebuilding did not disturb h, and asking h again (1: estimate then
+// bytes, 2: bytes then estimate) gives the same answers.
 func (w *W) crossCheck(h *hll.HyperLogLog, got uint64, b []byte, after int, det func() map[string]interface{}) {
 	c := w.c
 	var rb *hll.HyperLogLog
-	in := append([]byte(nil), b...)
-	if pv := vlib.Catch(func() { rb = hll.BuildHyperLogLog(in) }); pv != nil || rb == nil {
+	sum := vlib.HashBytes(b)
+	if pv := vlib.Catch(func() { rb = hll.BuildHyperLogLog(b) }); pv != nil || rb == nil || vlib.HashBytes(b) != sum {
 		d := det()
 		d["bytes"] = vlib.Hex(b)
-		c.Fail("Build:roundtrip", fmt.Sprintf("BuildHyperLogLog(GetBytes()) failed: %v", pv), d)
+		c.Fail("Build:roundtrip", fmt.Sprintf("BuildHyperLogLog(GetBytes()) failed (or wrote to its argument): %v", pv), d)
 		return
 	}
 	c.Count("estimates_compared_with_rebuilt_counter", 1)
@@ -406,12 +423,15 @@ func (w *W) crossCheck(h *hll.HyperLogLog, got uint64, b []byte, after int, det 
 		d["cardinality"], d["cardinality_rebuilt"] = got, c2
 		c.Fail("Build:roundtrip", fmt.Sprintf("Cardinality()=%d, but a counter freshly rebuilt from GetBytes() of the same object says %d: the estimate is not a function of the state", got, c2), d)
 	}
+	if after == 0 {
+		return
+	}
 	if b2 := rb.GetBytes(); !bytes.Equal(b2, b) {
 		d := det()
 		d["bytes"], d["rebuilt"] = vlib.Hex(b), vlib.Hex(b2)
 		c.Fail("Build:roundtrip", "bytes of the rebuilt counter differ from the bytes it was built from", d)
 	}
-	for k := 0; k < 2 && after != 0; k++ {
+	for k := 0; k < 2; k++ {
 		if (k == 0) == (after == 1) {
 			if c3 := h.Cardinality(); c3 != got {
 				d := det()
@@ -594,6 +614,9 @@ func (w *W) offerBoth(h *hll.HyperLogLog, md *model, it item, mism *int, det fun
 func main() {
 	c := vlib.Start("C14")
 	w := &W{c: c}
+	// the live heap is a few counters; every observation allocates its byte form anew. Collect
+	// less often (no verdict depends on it).
+	debug.SetGCPercent(1600)
 
 	// (0) the integers 1,2,3,… (what the repository's own tests offer), every precision, up to 5 m;
 	// independent of the seed. Checked after every item for p <= 8, every m/16 items above.
